@@ -770,7 +770,10 @@ def handleAlias (id : String) (t : List String) : Option (List String × Nat × 
         else
           match base with
           | some b =>
-            if !(same b o) then
+            -- the returned Condition is part of the outcome even when the call fails; only Mul and Quo are
+            -- exempt on a failed call (their flags then depend on a stale exponent: DESIGN.md §5, noted)
+            let sameFl : Bool := op == "mul" || op == "quo" || dlv b || b.fl == o.fl
+            if !(same b o) || !sameFl then
               if name == "fresh" then
                 res := merge res (propfail id "C06" s!"outcome depends on how the operands' coefficients are stored (heap-backed after an earlier large value)")
               else if name == "fresh-nan" || name == "fresh-big" then
